@@ -223,6 +223,23 @@ def r4_state_dependent_width_rechecked(ctx: Ctx) -> None:
         ctx.fail("OpcodeNode.pc_after:records-length", "the length used to place labels is not remembered, so emission cannot be compared with it")
         return
     ctx.ok("OpcodeNode.pc_after:records-length", recorded)
+    # the length that placed the labels (first pass) must not be silently replaced by a later pass
+    gp = CFG(pa.node)
+    stores = [n for n in walk_no_nested(pa.node) if isinstance(n, ast.Assign) and dotted(n.targets[0]) == recorded]
+    for stn in stores:
+        var = unparse(stn.value)
+        checks_pa: list[int] = []
+        for n in walk_no_nested(pa.node):
+            if isinstance(n, ast.Expr) and isinstance(n.value, ast.Call):
+                cn = call_name(n.value) or ""
+                if cn.startswith("self.") and len(n.value.args) == 1 and unparse(n.value.args[0]) == var:
+                    helper = ci.methods.get(cn.split(".", 1)[1])
+                    if helper is not None and _raising_compare(helper.node, recorded, helper.params()[1]):
+                        checks_pa.append(gp.node_of(n))
+            if isinstance(n, ast.If) and raising_compare_inline(n, recorded, var):
+                checks_pa.append(gp.node_of(n.test))
+        ctx.check(bool(checks_pa) and gp.dominated_by(gp.node_of(stn), checks_pa), "OpcodeNode.pc_after:compare-before-overwrite",
+                  "a later pass that infers another length must fail, not overwrite the length the labels were placed with")
 
     def raising_compare(fn_node: ast.FunctionDef, other: str) -> bool:
         for s in walk_no_nested(fn_node):
@@ -258,6 +275,16 @@ def r4_state_dependent_width_rechecked(ctx: Ctx) -> None:
     ctx.count("guards", len(rets))
 
 
+def _raising_compare(fn_node: ast.FunctionDef, recorded: str, other: str) -> bool:
+    for s in walk_no_nested(fn_node):
+        if isinstance(s, ast.If) and always_raises(s.body):
+            for c in ast.walk(s.test):
+                if isinstance(c, ast.Compare) and len(c.ops) == 1 and isinstance(c.ops[0], ast.NotEq):
+                    if {unparse(c.left), unparse(c.comparators[0])} == {recorded, other}:
+                        return True
+    return False
+
+
 def raising_compare_inline(s: ast.If, recorded: str, other: str) -> bool:
     if not always_raises(s.body):
         return False
@@ -269,10 +296,17 @@ def raising_compare_inline(s: ast.If, recorded: str, other: str) -> bool:
 
 
 
+def r5_position_bookkeeping(ctx: Ctx) -> None:
+    """labels are run addresses and bytes land at resolver.pc: both cursors must follow every *= / @= (shared with C03.R3)"""
+    from .c03 import r3_position_nodes
+
+    r3_position_nodes(ctx)
+
+
 def rb_binding_agreement(ctx: Ctx) -> None:
     from ..ownership import binding_agreement
 
     binding_agreement(ctx)
 
 
-RULES = [r1_per_class_length_agreement, r2_opcode_emitters, r3_traversal_agreement, r4_state_dependent_width_rechecked, rb_binding_agreement]
+RULES = [r1_per_class_length_agreement, r2_opcode_emitters, r3_traversal_agreement, r4_state_dependent_width_rechecked, r5_position_bookkeeping, rb_binding_agreement]
